@@ -1,4 +1,5 @@
 //! Injected at `src/decoder/adsb/position/vh/`: child of `position`, reaches the private CPR
 //! leaves `nl`, `pmod`, `fixed_lat`, `signed_lon`.
 #![allow(dead_code, unused_imports, unused_variables, unused_mut, clippy::all)]
+mod cpr;
 mod leaf;
